@@ -44,6 +44,7 @@ Print Assumptions C04_auto_commit_keeps_later_choice.
 
 (* a new choice replaces only the choices it overlaps *)
 Theorem C04_new_choice_replaces_only_overlapping : forall c iv c', wf_comp c -> ib iv < ie iv ->
+  (forall k, ib iv <= k < ie iv -> syl_sym c k) ->
   comp_push_selection c iv = Ok c' ->
   wf_comp c' /\ symbols c' = symbols c /\
   selections c' = filter (fun s => negb (iv_intersect s iv)) (selections c) ++ [iv].
@@ -66,8 +67,6 @@ Variable spell : N -> list N.
 Variable c : composition.
 Hypothesis Wc : wf_comp c.
 Hypothesis sel_len : Forall (fun s => length (itext s) = ie s - ib s) (selections c).
-Hypothesis sel_syl : forall sel k, In sel (selections c) -> ib sel <= k < ie sel ->
-  exists s, nth_error (symbols c) k = Some (SymSyl s).
 (* every syllable of the buffer has a word under the engine's lookup strategy (see C03.v) *)
 Hypothesis has_word : forall s, In (SymSyl s) (symbols c) -> lookup [SymSyl s] <> [].
 
@@ -78,7 +77,7 @@ Theorem C04_choice_is_displayed : forall p sel,
   firstn (ie sel - ib sel) (skipn (ib sel) (display_of (glue_path c (map edge_interval p)))) = itext sel.
 Proof.
   intros p sel Hp Hin.
-  destruct (every_path_tiles lookup lookup_len lookup_nil spell c Wc sel_len sel_syl has_word p Hp) as (Hc & Hok).
+  destruct (every_path_tiles lookup lookup_len lookup_nil spell c Wc sel_len has_word p Hp) as (Hc & Hok).
   exact (selection_is_displayed c Wc _ sel Hc Hok Hin).
 Qed.
 
@@ -89,7 +88,7 @@ Theorem C04_choice_is_displayed_validated : forall ivs sel, symbols c <> [] ->
   firstn (ie sel - ib sel) (skipn (ib sel) (display_of ivs)) = itext sel.
 Proof.
   intros ivs sel Hne Hv Hin.
-  destruct (valid_conversion_tiles lookup lookup_len lookup_nil spell c Wc sel_len sel_syl has_word ivs Hne Hv) as (Hc & Hok).
+  destruct (valid_conversion_tiles lookup lookup_len lookup_nil spell c Wc sel_len has_word ivs Hne Hv) as (Hc & Hok).
   exact (selection_is_displayed c Wc _ sel Hc Hok Hin).
 Qed.
 
@@ -99,7 +98,7 @@ Theorem C04_break_never_spanned : forall p iv k,
   In iv (glue_path c (map edge_interval p)) -> ib iv < k < ie iv -> comp_gap c k <> Some GBreak.
 Proof.
   intros p iv k Hp Hin Hk.
-  destruct (every_path_tiles lookup lookup_len lookup_nil spell c Wc sel_len sel_syl has_word p Hp) as (_ & Hok).
+  destruct (every_path_tiles lookup lookup_len lookup_nil spell c Wc sel_len has_word p Hp) as (_ & Hok).
   exact (no_interval_spans_break c _ iv k Hok Hin Hk).
 Qed.
 
